@@ -15,6 +15,7 @@ import Psa.Driver.EvIO
 import Psa.Driver.EncIO
 import Psa.Driver.RegIO
 import Psa.Driver.EncJsonIO
+import Psa.Driver.JTokIO
 namespace Psa.Driver
 open Psa
 
@@ -88,6 +89,8 @@ def runLine (l : String) : String :=
       | "omap" => opOmap args
       | "serj" => opSerJ args
       | "popj" => opPopJ args
+      | "jskip" => opJSkip args
+      | "jkeys" => opJKeys args
       | "reg" => opReg args
       | "dispatch-cbor" => opDispatchCbor args
       | "dispatch-json" => opDispatchJson args
